@@ -50,7 +50,6 @@ def c02_runs(tier):
             add(set_, n, 0, '?2' if quick else '?3', '?', 0, alpha=c02_alpha(n, not quick), budget=60 if quick else 240)
         if quick:
             add(set_, 2, 0, '?1', '?', 0, alpha=c02_alpha(2, True), budget=60)
-            add(set_, 2, (1, 4)[k % 2], '?2', waits[k % 5], 0, alpha=c02_alpha(2, False), budget=60)
         else:
             add(set_, 2, 0, '?2', '?', 0, alpha=c02_alpha(2, True), budget=240)
             add(set_, 2, (1, 4)[k % 2], '?3', waits[(2 * k) % 5], 0, alpha=c02_alpha(2, False), budget=240)
@@ -66,7 +65,6 @@ def c02_runs(tier):
                 k += 1
             k += 0
         add('ts', 2, 4, 'b2s', 'w', 1, budget=60)
-        add('cl', 2, 1, 'sb3', '1', 1, budget=60)
         add('cl', 1, 4, 'sq', 'd', 1, t1='q')
     else:
         for set_ in SETS:
@@ -117,8 +115,8 @@ def c04_runs(tier):
     runs = []
     quick = tier == 'quick'
 
-    def add(set_, n, src, prog, bound, g=0, pg=0, load=None, mask=None, pos=None, mode='plain', budget=40, slm=1, plm=1):
-        params = dict(set=set_, n=n, src=src, prog=prog, slm=slm, plm=plm, alpha=C04_ALPHA)
+    def add(set_, n, src, prog, bound, g=0, pg=0, load=None, mask=None, pos=None, mode='plain', budget=40, slm=1, plm=1, alpha=C04_ALPHA):
+        params = dict(set=set_, n=n, src=src, prog=prog, slm=slm, plm=plm, alpha=alpha)
         if load:
             params['load'] = load  # '?': no load / set over its load factor / pool over its load factor (mc::choose)
         else:
@@ -143,40 +141,41 @@ def c04_runs(tier):
                 if not (quick and (n == 0 or g)):
                     add(set_, n, 'p2', '?1' if quick else '?2', 0, g=g, budget=60 if quick else 200)
     # (b) bound 1: the cancel races the submissions
-    race_progs = ['sq', 'b3s'] if quick else ['sq', 'qs', 'sb2', 'b2s', 'b3s', 'B2s', 'sss']
+    race_alpha = 'sq,qs,sb2,b2s,b3s,B2s,sss'
     for set_ in ('ch', 'cl'):
-        for i, p in enumerate(race_progs):
-            if quick:
-                loads = [(c04_gates(set_, 1), 0)] if i == 0 else [(0, 2)]
-            else:
-                loads = [(0, 0), (c04_gates(set_, 1), 0), (0, 2)]
-            for g, pg in loads:
-                add(set_, 1, 't1', p, 1, g=g, pg=pg, budget=60)  # cancel() on a second thread
-        if not quick:
-            for p in race_progs[:3]:
+        # cancel() on a second thread (ConcurrentTaskSet), released after `pos` steps of the submitter
+        if quick:
+            add(set_, 1, 't1', 'sq', 1, g=c04_gates(set_, 1), budget=60)
+            add(set_, 1, 't1', 'b3s', 1, pg=2, budget=60)
+        else:
+            add(set_, 1, 't1', '?1', 1, load='?', budget=400, alpha=race_alpha)
+            for p in ('sq', 'sb2', 'b2s'):
                 add(set_, 2, 't1', p, 1, g=c04_gates(set_, 2), budget=150)
             add(set_, 1, 't1', 'sq', 2, g=c04_gates(set_, 1), budget=150)
     for set_ in SETS:
         gl = c04_gates(set_, 1)
         # T0 cancels the top of a cascade while a pool thread runs the child set
-        for p in (['sb2'] if quick else ['sb2', 'sq', 'b3s']):
-            add(set_, 1, 'P1', p, 1, g=gl, budget=60)
-            if not quick:
-                add(set_, 1, 'P1', p, 1, g=0, budget=60)
-                add(set_, 1, 'P2', p, 1, g=gl, budget=90)
-        if not quick:
+        if quick:
+            add(set_, 1, 'P1', 'sb2', 1, g=gl, budget=60)
+        else:
+            for g in (0, gl):
+                add(set_, 1, 'P1', '?1', 1, g=g, budget=200, alpha='sb2,sq,b3s')
+            add(set_, 1, 'P2', '?1', 1, g=gl, budget=200, alpha='sb2,sq')
             add(set_, 2, 'P1', 'sq', 1, g=0, budget=200)
             add(set_, 1, 't0', '?2', 1, g=gl, budget=240)
             add(set_, 1, 'p1', '?1', 1, g=gl, budget=200)
         # a throwing task cancels the set: thrower queued first / first of a bulk call that continues inline /
         # queued with a bulk behind it / inline (propagates to the caller, no cancel)
-        exs = [('qsb2', 1, 0), ('b3', 1, 1), ('qb2s', 1, 1), ('B2sq', 2, 0), ('sqs', 1, 1)]
         for n in (0, 1, 2):
-            for p, mask, loaded in (exs[:2] if quick else exs):
-                if quick and n == 2 and p != 'b3':
-                    continue
-                g = c04_gates(set_, n) if (loaded and n) else 0
-                add(set_, n, 'ex', p, 1 if n < 2 else (0 if quick else 1), g=g, mask=mask, pos=0, budget=60 if quick else 150)
+            g = c04_gates(set_, n) if n else 0
+            if quick:
+                if n < 2:
+                    add(set_, n, 'ex', 'qsb2', 1, g=0, mask=1, pos=0, budget=60)
+                add(set_, n, 'ex', 'b3', 1 if n < 2 else 0, g=g, mask=1, pos=0, budget=60)
+            else:
+                add(set_, n, 'ex', '?1', 1, g=0, mask=1, pos=0, budget=200, alpha='qsb2,qb2s,qqs')
+                add(set_, n, 'ex', '?1', 1, g=g, mask=1, pos=0, budget=200, alpha='b3,qb2s,sqs')
+                add(set_, n, 'ex', 'B2sq', 1, g=0, mask=2, pos=0, budget=150)
     # default multipliers: a pool thread (cascade runner) cancels and goes on submitting
     for set_ in SETS:
         add(set_, 1, 'p1', 'qs', 1, slm=4, plm=32, budget=60)
@@ -184,8 +183,8 @@ def c04_runs(tier):
             add(set_, 2, 'p1', 'qqs', 1, slm=4, plm=32, budget=200)
             add(set_, 1, 'P1', 'qsb2', 1, slm=4, plm=32, budget=100)
     # sanitizer legs
-    add('cl', 1, 't1', 's', 1, g=2, pos=0, mode='tsan', budget=50)
-    add('ts', 1, 'P1', 's', 1, g=2, pos=0, mode='tsan', budget=50)
+    add('cl', 1, 't1', 's', 1, g=0, pos=0, mode='tsan', budget=40)
+    add('ts', 1, 'P1', 's', 1, g=0, pos=0, mode='tsan', budget=40)
     add('ch', 1, 'ex', 'qsb2', 1, mask=1, pos=0, mode='asan', budget=40)
     add('ts', 1, 'p2', 'sq', 0, mode='asan', budget=40)
     return runs
@@ -223,7 +222,7 @@ def c05_runs(tier):
     #     all by data nondeterminism. With 2 workers bound 0 already branches at every blocking point, so the quick
     #     tier takes a sub-alphabet there.
     k = 0
-    small = 'qq,b2,sq,b3,qb2'
+    small = 'qq,b2,sq'
     for set_ in SETS:
         for n in (0, 1, 2):
             seqs = [('ww8', 'n'), ('8w0', 'x')]
@@ -234,27 +233,24 @@ def c05_runs(tier):
                 if n == 2:
                     add(set_, n, '?1', -1, 0, g=0, ws=ws, r=r, alpha=small if quick else allp, budget=40 if quick else 300)
                     if not quick:
-                        add(set_, n, '?1', -1, 0, g=c04_gates(set_, 2), ws=ws, r=r, alpha=small, budget=200)
+                        add(set_, n, '?1', -1, 0, g=c04_gates(set_, 2), ws=ws, r=r, alpha='qq,b2,sq,b3,qb2', budget=200)
                 else:
                     add(set_, n, '?1', -1, 0, g=-1, ws=ws, r=r, alpha=allp, budget=60 if quick else 200)
         # zero-thread pool: a force-queued bulk first keeps tasks outstanding, so schedule() runs the functor inline
         add(set_, 0, '?1', -1, 0, alpha='B1s,B1ss,B2s,B1sq,B1b2', ws='ww8', r='x')
     # (b) bound 1: throwers racing each other / the waiter; inline throwers with queued ones behind them
-    sel = [('qq', 3), ('b3', 5), ('sq', 3)] if quick else \
-          [('qq', 3), ('b2', 3), ('B2', 3), ('qqq', 5), ('qqq', 7), ('sq', 1), ('sq', 3), ('b3', 2), ('b3', 7), ('sb2', 5), ('b2q', 6), ('q', 1), ('s', 1)]
     for set_ in SETS:
         gl = c04_gates(set_, 1)
-        for p, m in sel:
-            if not (quick and p == 'sq'):
-                add(set_, 1, p, m, 1, g=0, ws='ww8', r='n', slm=(4 if p[0] in 'bB' else 1), budget=60)
-            if ('s' in p or 'b' in p) and not (quick and p == 'b3'):
-                add(set_, 1, p, m, 1, g=gl, ws='w8w', r='x', budget=60)
-        for p, m in ([] if quick else sel[:4]):
-            add(set_, 2, p, m, 1, g=0, ws='w', r='n', slm=(4 if p[0] in 'bB' else 1), budget=200)
-        if quick and set_ == 'ts':
-            add(set_, 2, 'qq', 3, 1, g=0, ws='w', r='n', budget=40)
-        if not quick:
-            add(set_, 1, '?1', -1, 1, alpha='s,q,b1,ss,sq,qq,b2,B2', ws='ww8', r='n', budget=300)
+        if quick:
+            add(set_, 1, 'qq', 3, 1, g=0, ws='ww8', r='n', budget=60)
+            add(set_, 1, 'b3', 5, 1, g=0, ws='ww8', r='n', slm=4, budget=60)
+            add(set_, 1, 'sq', 3, 1, g=gl, ws='w8w', r='x', budget=60)
+        else:
+            # every program of <= 3 tasks below x every subset of throwers x {no load, set over its load factor}
+            add(set_, 1, '?1', -1, 1, g=-1, alpha='s,q,b1,ss,sq,qq,b2,B2,qqq,b3,sb2,b2q', ws='ww8', r='n', budget=500)
+            add(set_, 1, '?1', -1, 1, g=-1, alpha='sq,qq,b2,b3', ws='8w0', r='x', budget=300)
+            for p, m in (('qq', 3), ('b2', 3), ('B2', 3), ('qqq', 5)):
+                add(set_, 2, p, m, 1, g=0, ws='w', r='n', slm=(4 if p[0] in 'bB' else 1), budget=200)
             add(set_, 1, 'qq', 3, 2, ws='ww8', r='n', budget=150)
             add(set_, 1, 'q', 1, 2, ws='8w', r='x', budget=100)
     # sanitizer legs
